@@ -2,6 +2,7 @@ package props
 
 import (
 	"fmt"
+	"go/constant"
 	"go/token"
 	"go/types"
 	"os"
@@ -63,6 +64,7 @@ func checkC12(r *core.Run) {
 	c12PkgCache(r, p)
 	c12OverlapScanComplete(r, p, "R-C12-sort")
 	c12SortSkipMarksDirty(r, p, "R-C12-sort")
+	c12DeleteChildrenRecursive(r, p, "R-C12-owner")
 	// a transaction is unlinked from the pool (its inputs released, its map entry removed) before the fee
 	// packages are updated: the package update rebuilds membership by walking the spent-outputs map, and would
 	// put the transaction that is being deleted back into its package
@@ -1377,4 +1379,36 @@ func c12SortSkipMarksDirty(r *core.Run, p *core.Program, rule string) {
 		}
 		r.Check(bad == "", rule, key, p.Pos(fn.Pos()), "every return follows a change of the list or finds / leaves the list marked dirty", bad)
 	}
+}
+
+// c12DeleteChildrenRecursive: removing a transaction "with children" removes every descendant: each child is
+// itself removed with its children.  The recursive call inside Delete passes with_children = true (the constant,
+// or the parameter itself - it is true on that branch); a child removed without its own children leaves
+// grandchildren in the pool that spend an output of a transaction no longer there.
+func c12DeleteChildrenRecursive(r *core.Run, p *core.Program, rule string) {
+	del := p.Func("client/txpool.(*OneTxToSend).Delete")
+	if del == nil || len(del.Params) < 2 {
+		r.Fail(rule, "delete/children-recursive", "-", "Delete not found")
+		return
+	}
+	n := 0
+	bad := ""
+	for _, c := range an.CallsTo(del, false, "(*client/txpool.OneTxToSend).Delete") {
+		args := c.Common().Args
+		if len(args) < 2 {
+			continue
+		}
+		n++
+		ok := false
+		if k, isC := args[1].(*ssa.Const); isC && k.Value != nil && constant.BoolVal(k.Value) {
+			ok = true
+		} else if args[1] == del.Params[1] && an.HasCond(an.DomConds(c.Block()), an.Expr(del.Params[1]), true) {
+			ok = true
+		}
+		if !ok {
+			bad = fmt.Sprintf("at %s a child is removed without its own children (with_children = %s): its descendants stay in the pool spending outputs of removed transactions", p.Pos(c.Pos()), an.Expr(args[1]))
+		}
+	}
+	r.Check(n >= 1 && bad == "", rule, "delete/children-recursive", p.Pos(del.Pos()), fmt.Sprintf("%d recursive removal(s) of children, each with its own children", n),
+		bad+map[bool]string{true: "", false: "Delete does not remove the children of the transaction"}[n >= 1])
 }
